@@ -251,6 +251,17 @@ func (fr *frame) rangeMap(m *omap) iter {
 		orders := mapOrders(n)
 		alt := fr.i.ex.Choose(len(orders), DkMapOrder, "")
 		order = orders[alt]
+	} else if n >= 2 && fr.i.mapOrder == 3 && fr.i.inTargetCode(fr) {
+		// every other map range of the library: one decision per path,
+		// insertion order everywhere or reverse order everywhere
+		if fr.i.mapReverse == 0 {
+			fr.i.mapReverse = 1 + fr.i.ex.Choose(2, DkMapOrder, "")
+		}
+		if fr.i.mapReverse == 2 {
+			for i := range order {
+				order[i] = n - 1 - i
+			}
+		}
 	}
 	var keys []value
 	if m != nil {
